@@ -43,8 +43,8 @@ func c03Types() []c03Ty {
 func c03DeclProgram(rng *core.Rand, pkg string) (src, client, want string) {
 	tys := c03Types()
 	var fo, gob, w strings.Builder
-	fmt.Fprintf(&fo, "package %s\n\nimport frt\n\ntype Base = {Bx: int; By: string}\n\n", pkg)
-	fmt.Fprintf(&gob, "package %s\n\nimport (\n\t\"fmt\"\n\n\t\"github.com/karino2/folang/pkg/frt\"\n)\n\nvar _ = frt.Println\n\nfunc Run() {\n", pkg)
+	fmt.Fprintf(&fo, "package %s\n\nimport frt\nimport dict\n\ntype Base = {Bx: int; By: string}\n\n", pkg)
+	fmt.Fprintf(&gob, "package %s\n\nimport (\n\t\"fmt\"\n\n\t\"github.com/karino2/folang/pkg/dict\"\n\t\"github.com/karino2/folang/pkg/frt\"\n)\n\nvar _ = frt.Println\n\nfunc Run() {\n", pkg)
 	pr := func(expr, text string) {
 		fmt.Fprintf(&gob, "\tfmt.Println(%s)\n", expr)
 		w.WriteString(text + "\n")
@@ -171,6 +171,70 @@ func c03DeclProgram(rng *core.Rand, pkg string) (src, client, want string) {
 		pr(t3.show("th"), t3.text(kc))
 		fmt.Fprintf(&gob, "\tvar fi %s = firstOf(%s, %s, %s)\n", t1.gox, t1.goVal(ka), t2.goVal(kb), t3.goVal(kc))
 		pr(t1.show("fi"), t1.text(ka))
+	}
+	// generic functions defined in Folang, called from Go (type parameters in first-occurrence order)
+	{
+		t1, t2 := tys[rng.Intn(8)], tys[rng.Intn(8)]
+		fo.WriteString("let pairUp a b =\n  (a, b)\n\nlet swapUp a b =\n  (b, a)\n\nlet firstOfThree a b c =\n  frt.Fst (a, (b, c))\n\n")
+		k1, k2 := next(), next()
+		fmt.Fprintf(&gob, "\tvar pu frt.Tuple2[%s, %s] = pairUp(%s, %s)\n", t1.gox, t2.gox, t1.goVal(k1), t2.goVal(k2))
+		pr(t1.show("pu.E0"), t1.text(k1))
+		pr(t2.show("pu.E1"), t2.text(k2))
+		fmt.Fprintf(&gob, "\tvar su frt.Tuple2[%s, %s] = swapUp[%s, %s](%s, %s)\n", t2.gox, t1.gox, t1.gox, t2.gox, t1.goVal(k1), t2.goVal(k2))
+		pr(t2.show("su.E0"), t2.text(k2))
+		fmt.Fprintf(&gob, "\tvar f3 %s = firstOfThree[%s, int, string](%s, 1, \"z\")\n", t1.gox, t1.gox, t1.goVal(k1))
+		pr(t1.show("f3"), t1.text(k1))
+	}
+	// recursive declarations: a record referring to itself, a union referring to itself and to a
+	// record declared later in the same `and` group, directly inside slices and inside the type
+	// arguments of an external generic (dict.Dict)
+	{
+		recKids := rng.Chance(0.6)
+		uniArr := rng.Chance(0.6)
+		uniMeta := rng.Chance(0.7)
+		fo.WriteString("type Tree = {Label: string; ")
+		if recKids {
+			fo.WriteString("Kids: []Tree; ")
+		}
+		fo.WriteString("Named: dict.Dict<string, Tree>}\n\n")
+		fo.WriteString("type Js =\n| JNum of int\n")
+		if uniArr {
+			fo.WriteString("| JArr of []Js\n")
+		}
+		fo.WriteString("| JObj of dict.Dict<string, Js>\n")
+		if uniMeta {
+			fo.WriteString("| JMeta of dict.Dict<string, MetaR>\nand MetaR = {Key: string; Origin: Js}\n")
+		}
+		fo.WriteString("\nlet treeLabel (t:Tree) =\n  t.Label\n\nlet jsNum (i:int) =\n  JNum i\n\n")
+		k := next()
+		kids := ""
+		if recKids {
+			kids = "Kids: nil, "
+		}
+		fmt.Fprintf(&gob, "\tleaf := Tree{Label: \"leaf%d\", %sNamed: dict.New[string, Tree]()}\n", k, kids)
+		if recKids {
+			kids = "Kids: []Tree{leaf}, "
+		}
+		fmt.Fprintf(&gob, "\troot := Tree{Label: \"root%d\", %sNamed: dict.New[string, Tree]()}\n", k, kids)
+		gob.WriteString("\tdict.Add(root.Named, \"l\", leaf)\n\tvar viaDict Tree = dict.Item(root.Named, \"l\")\n")
+		pr("treeLabel(root), treeLabel(viaDict)", fmt.Sprintf("root%d leaf%d", k, k))
+		if recKids {
+			pr("treeLabel(root.Kids[0])", fmt.Sprintf("leaf%d", k))
+		}
+		gob.WriteString("\tjd := dict.New[string, Js]()\n")
+		fmt.Fprintf(&gob, "\tdict.Add(jd, \"n\", jsNum(%d))\n\tvar jo Js = New_Js_JObj(jd)\n", k)
+		gob.WriteString("\tif o, ok := jo.(Js_JObj); ok {\n\t\tvar inner Js = dict.Item(o.Value, \"n\")\n\t\tfmt.Println(inner.(Js_JNum).Value)\n\t}\n")
+		w.WriteString(fmt.Sprint(k) + "\n")
+		if uniArr {
+			gob.WriteString("\tvar ja Js = New_Js_JArr([]Js{jo, jo})\n")
+			pr("len(ja.(Js_JArr).Value)", "2")
+		}
+		if uniMeta {
+			gob.WriteString("\tmd := dict.New[string, MetaR]()\n\tdict.Add(md, \"m\", MetaR{Key: \"mk\", Origin: jo})\n\tvar jm Js = New_Js_JMeta(md)\n")
+			gob.WriteString("\tvar mr MetaR = dict.Item(jm.(Js_JMeta).Value, \"m\")\n")
+			pr("mr.Key", "mk")
+			gob.WriteString("\tif _, ok := mr.Origin.(Js_JObj); !ok {\n\t\tfmt.Println(\"MetaR.Origin: not the documented case struct\")\n\t}\n")
+		}
 	}
 	gob.WriteString("}\n")
 	return fo.String(), gob.String(), w.String()
